@@ -56,6 +56,21 @@ Theorem C11_merge_concurrent_at_most_n_subscribed : forall A mc (mapper : A -> n
 Proof. exact @merge_concurrent_bounded. Qed.
 Print Assumptions C11_merge_concurrent_at_most_n_subscribed.
 
+(* no element is invented, reordered or delayed: every emitted element is an element of an inner sequence,
+   emitted at that input's own position (flat_map / merge_all and merge(max_concurrent) / concat_map) *)
+Theorem C11_flat_map_emits_only_inner_elements_in_place :
+  forall A (mapper : A -> nat -> res unit) (ins : list (Z * inp A)) ol cnt running pos p x,
+  In (p, Next x) (flat_map_spec mapper ol cnt running pos ins) ->
+  exists j now, nth_error ins (p - pos) = Some (now, ISrc (S j) (Next x)) /\ (pos <= p)%nat.
+Proof. exact @flat_map_spec_sound. Qed.
+Print Assumptions C11_flat_map_emits_only_inner_elements_in_place.
+Theorem C11_merge_concurrent_emits_only_inner_elements_in_place :
+  forall A (mapper : A -> nat -> res unit) mc (ins : list (Z * inp A)) ol cnt running queue pos p x,
+  In (p, Next x) (mc_spec mapper mc ol cnt running queue pos ins) ->
+  exists j now, nth_error ins (p - pos) = Some (now, ISrc (S j) (Next x)) /\ (pos <= p)%nat.
+Proof. exact @mc_spec_sound. Qed.
+Print Assumptions C11_merge_concurrent_emits_only_inner_elements_in_place.
+
 (* concat_map: the second inner is subscribed only when the first completed, so its earlier elements are lost
    (hot inner) and the output is the ordered concatenation *)
 Example C11_witness_concat_map :
